@@ -12,7 +12,7 @@ type Context interface {
 type ctx struct{}
 
 func (ctx) Done() *vrt.Chan[struct{}] { return vrt.W().CtxDone }
-func (ctx) Err() error               { return vrt.W().CtxErr }
+func (ctx) Err() error                { return vrt.W().CtxErr }
 
 // Current returns the context of the modelled world.
 func Current() Context { return ctx{} }
